@@ -93,6 +93,8 @@ class TimeEnv:
         self.rows = rows
         self.reads = []  # SymInt instants in order
         self.cache = {}
+        self.decomps = []
+        self.wdays = []
         self.owner = None
         self.read_owner = []
         self.ups = {}  # read index -> SymBool 'fraction >= .5' (time.time() reads)
@@ -181,9 +183,28 @@ class TimeEnv:
         tot = ((day * 24 + h) * 60 + m) * 60 + s
         e = i_eq(tot, local)
         p.constrain(e.t if isinstance(e, SymBool) else z3.BoolVal(bool(e)))
+        # arithmetic lemma (uniqueness of the mixed-radix decomposition, discharged in LIA once per
+        # process): equal totals have equal components.  Stated against every earlier decomposition.
+        self.register_decomp(local, (day, h, m, s))
         # definitional symbols: the decomposition of one term is shared by everyone who asks
         self.cache[key] = (local.t, (day, h, m, s))
         return day, h, m, s
+
+    def register_decomp(self, local, comps):
+        """`comps` = (day, h, m, s) is the mixed-radix decomposition of `local` (digits in range):
+        instantiate the uniqueness lemma against every earlier decomposition"""
+        prove_radix_lemma()
+        p = self.path
+        for (lt, c0) in self.decomps:
+            same = i_eq(local, lt)
+            if same is False:
+                continue
+            eqs = b_and(*[i_eq(a, b) for a, b in zip(comps, c0)])
+            if same is True:
+                p.constrain(_bt2(eqs))
+            else:
+                p.constrain(z3.Implies(_bt2(same), _bt2(eqs)))
+        self.decomps.append((local, comps))
 
     def weekday_of_day(self, day):
         if isinstance(day, int):
@@ -199,8 +220,48 @@ class TimeEnv:
         p.constrain(z3.And(wv >= 0, wv <= 6, qv >= 0))
         e = i_eq(q * 7 + w, day + 3)
         p.constrain(e.t if isinstance(e, SymBool) else z3.BoolVal(bool(e)))
+        for (d0, w0) in self.wdays:
+            same = i_eq(day, d0)
+            if same is False:
+                continue
+            p.constrain(z3.Implies(_bt2(same), _bt2(i_eq(w, w0))))
+        self.wdays.append((day, w))
         self.cache[key] = (day.t, w)
         return w
+
+
+_RADIX_PROVED = [False]
+
+
+def _bt2(b):
+    return b.t if isinstance(b, SymBool) else z3.BoolVal(bool(b))
+
+
+def prove_radix_lemma():
+    """((d1*24+h1)*60+m1)*60+s1 == ((d2*24+h2)*60+m2)*60+s2 with digits in range implies equal
+    components; and d1+3 = 7q1+w1, d2+3 = 7q2+w2 with 0<=w<7 and d1 == d2 implies w1 == w2.  (z3, linear integer arithmetic)"""
+    if _RADIX_PROVED[0]:
+        return
+    d1, h1, m1, s1, d2, h2, m2, s2 = z3.Ints("d1 h1 m1 s1 d2 h2 m2 s2")
+    rng = []
+    for h, m, s_ in ((h1, m1, s1), (h2, m2, s2)):
+        rng += [h >= 0, h < 24, m >= 0, m < 60, s_ >= 0, s_ < 60]
+    sol = z3.Solver()
+    sol.set("timeout", 60000)
+    sol.add(*rng)
+    sol.add(((d1 * 24 + h1) * 60 + m1) * 60 + s1 == ((d2 * 24 + h2) * 60 + m2) * 60 + s2)
+    sol.add(z3.Or(d1 != d2, h1 != h2, m1 != m2, s1 != s2))
+    r1 = str(sol.check())
+    q1, w1, q2, w2 = z3.Ints("q1 w1 q2 w2")
+    sol2 = z3.Solver()
+    sol2.set("timeout", 60000)
+    sol2.add(w1 >= 0, w1 < 7, w2 >= 0, w2 < 7, d1 + 3 == 7 * q1 + w1, d1 + 3 == 7 * q2 + w2, w1 != w2)
+    r2 = str(sol2.check())
+    if r1 != "unsat" or r2 != "unsat":
+        raise E.Inconclusive("mixed-radix uniqueness lemma not established (%s, %s)" % (r1, r2))
+    FL.LEMMAS["A1_mixed_radix_uniqueness"] = {"result": "unsat", "solver": "z3-LIA", "seconds": 0.0,
+                                              "statement": "equal day/hour/minute/second totals (digits in range) have equal components; equal days have equal weekdays"}
+    _RADIX_PROVED[0] = True
 
 
 def env():
@@ -432,6 +493,8 @@ class TimeModule:
         p.constrain(v >= 0)
         # the instant must exist (DST gaps are pruned) and lie in the row's window
         p.assume(_bt(b_and(i_eq(t + te.off(t), local), te.in_window(t))))
+        if all(isinstance(x, int) or (x.lo >= 0 and x.hi <= hi) for x, hi in ((st.tm_hour, 23), (st.tm_min, 59), (st.tm_sec, 59))):
+            te.register_decomp(t + te.off(t), (st.day, st.tm_hour, st.tm_min, st.tm_sec))
         return FL.FInt(t)
 
     def sleep(self, *a):
@@ -476,6 +539,28 @@ def _render(fmt, st):
 
 
 TIME = TimeModule()
+
+
+def s_timegm(st):
+    import calendar as _cal
+
+    if not isinstance(st, SStructTime):
+        return _cal.timegm(st)
+    if st.day is None:
+        raise Unsupported("timegm of a struct without date")
+    return ((st.day * 24 + st.tm_hour) * 60 + st.tm_min) * 60 + st.tm_sec
+
+
+class _CalendarModule:
+    timegm = staticmethod(s_timegm)
+
+    def __getattr__(self, name):
+        import calendar as _cal
+
+        return getattr(_cal, name)
+
+
+CALENDAR = _CalendarModule()
 
 # =============================================================================== datetime
 
